@@ -94,7 +94,7 @@ def main():
                     b = sh("cargo build --release --offline --lib 2>&1", cwd=WT)
                     if b.returncode != 0:
                         return None
-                    r = sh("PPG2_SO=%s %s %s/demo.py %s 2>&1" % (so, sys.executable, d, so), cwd=WT, timeout=600)
+                    r = sh("PPG2_WORKTREE=%s PPG2_SO=%s %s %s/demo.py %s 2>&1" % (WT, so, sys.executable, d, so), cwd=WT, timeout=600)
                     return r.returncode
 
                 sh("git checkout -q -- . ; git clean -fdq -e target", cwd=WT)
